@@ -452,8 +452,8 @@ def run(ctx: RunContext) -> int:
     t0 = time.time()
     if shutil.which("gcc") is None:
         raise HarnessError("gcc not found")
-    n_layout = ctx.scale(380, 6000)
-    n_general = ctx.scale(90, 1500)
+    n_layout = ctx.scale(600, 6000)
+    n_general = ctx.scale(150, 1500)
     gcc_every = 12 if ctx.quick else 1
     res = run_shards(shard, [(i, 16, derive_seed(ctx.seed, i), n_layout, n_general, gcc_every) for i in range(16)])
     res.notes.append(f"exhaustive sub-domain complete: all {sum(1 for _ in all_sequences())} sequences of <= 4 fields over "
